@@ -510,3 +510,68 @@ def attr_stmt(ctx):
     else:
         ctx.inconclusive.append("vacuity: parser never completed")
     ctx.sample({"paths": E.paths})
+
+
+# ---------------------------------------------------------------------------------------
+# O2e: the specification written after an entity's NAME (array spec, coarray spec, character length, in every combination) is shown
+# verbatim next to that name; the name itself is the text before the first of `(`, `[`, `*`
+# ---------------------------------------------------------------------------------------
+ENTITY_HEADS = ["character :: ", "character(len=5) :: ", "character, intent(in) :: ", "character ", "CHARACTER(LEN=5), SAVE :: "]
+ENTITY_SPECS = ["*(*)", "*(10)", "(2)*(3)", "*7", "(3)[*]", "[n(1),*]", "*(len(c))", "(3)", "(2*n)", "(2*n)[*]", "(0:*)", ""]
+ENTITY_NAMES = ["v", "Msg", "LABEL_2"]
+
+
+def _espec_observe(f):
+    vs = list(f.modules[0].variables)
+    return [(v.name, v.dimension) for v in vs]
+
+
+def replay_espec(w):
+    f = parserh.parse_concrete(["module m", w["decl"], "end module m"])
+    got = [[str(n), str(d)] for n, d in _espec_observe(f)]
+    return got != [[w["name"], w["spec"]]], {"declaration": w["decl"], "ford (name, specification after the name)": got,
+                                               "source": [[w["name"], w["spec"]]]}
+
+
+@obligation("C18", "O2e.entity-specification-after-the-name", engine="SX(CV)", timeout=900)
+def entity_spec(ctx):
+    """character declaration in a symbolic heading spelling, of a symbolic name followed by a symbolic entity specification (`*(*)`,
+    `(2)*(3)`, `(3)[*]`, `[n(1),*]`, ...): one variable, with exactly that name and exactly that specification text"""
+    import ford.sourceform as sf
+
+    ctx.encode_fn(sf.line_to_variables)
+    ctx.encode_fn(sf.FortranVariable.__init__)
+    ctx.bounds.update({"headings": len(ENTITY_HEADS), "specifications": len(ENTITY_SPECS), "names": len(ENTITY_NAMES)})
+
+    def h(E):
+        hd = CV.choice(E, "head", ENTITY_HEADS)
+        sp = CV.choice(E, "spec", ENTITY_SPECS)
+        nm = CV.choice(E, "name", ENTITY_NAMES)
+        decl = choice.apply(lambda a, b, c: a + b + c, hd, nm, sp)
+        E.e.snapshot = lambda m: {"decl": choice.value_in_model(m, decl), "name": choice.value_in_model(m, nm), "spec": choice.value_in_model(m, sp)}
+        try:
+            obs = parserh.parse(["module m", decl, "end module m"], post=_espec_observe)
+        except (ValueError, IndexError, KeyError, AttributeError, TypeError) as e:
+            E.reachable("raised")
+            E.require(False, "parser fails on a valid declaration: " + type(e).__name__)
+            return
+        E.reachable("parsed")
+        if len(obs) != 1:
+            E.require(False, "not exactly one variable reported")
+            return
+        E.require(choice.apply(lambda g, w_: str(g) == w_, obs[0][0], nm), "the name is cut at the wrong place")
+        E.require(choice.apply(lambda g, w_: str(g) == w_, obs[0][1], sp), "the specification after the name is not shown verbatim")
+
+    E = sym.Engine(ctx, max_paths=5000, incremental=True)
+    found = E.explore(h)
+    seen = set()
+    for (label, m, pc), snap in zip(found, E.snapshots):
+        if label in seen or not snap:
+            continue
+        seen.add(label)
+        ctx.report(label, snap, replay_espec)
+    if E.reached.get("parsed"):
+        ctx.twins += 1
+    else:
+        ctx.inconclusive.append("vacuity: parser never completed")
+    ctx.sample({"paths": E.paths})
